@@ -68,7 +68,10 @@ func (self *Traveller) Cleared(now EpochTime) ClearanceReason {
 	// If we have a.Kept then update its Clearance date, which might
 	// have changed due to "stacking"
 	if self.Kept.Clearance != 0 {
-		self.Kept.Clearance,_ = self.Promises.match(self.Kept)
+		clearance,err := self.Promises.match(self.Kept)
+		if err == nil {
+			self.Kept.Clearance = clearance
+		}
 	}
 
 	// Cleared to travel if in a trip, past the clearance date or with a distance account in credit
